@@ -6,6 +6,7 @@
 
 #include "Z/Impedance.hpp"
 
+#include <algorithm>
 #include <fstream>
 #include <iostream>
 #include <limits>
@@ -66,7 +67,9 @@ vfps::Impedance &vfps::Impedance::operator=(vfps::Impedance other)
 
 vfps::Impedance &vfps::Impedance::operator+=(const vfps::Impedance &rhs)
 {
-    for (size_t i=0; i<_nfreqs; i++) {
+    // a shorter table only contributes to the samples it has
+    const size_t n = std::min(_data.size(),rhs._data.size());
+    for (size_t i=0; i<n; i++) {
         _data[i] += rhs._data[i];
     }
     #if INOVESA_USE_OPENCL == 1
